@@ -22,6 +22,10 @@ pub struct Cfg {
     /// carousel with a zero delay
     #[serde(default)]
     pub catalog_kind: u8,
+    /// session OTI = Reed-Solomon without parity symbols, under which no FDT instance can be encoded: every
+    /// publication (explicit or automatic) fails. (The field name is historical.)
+    #[serde(default)]
+    pub sess_raptor: bool,
 }
 
 pub fn catalog_of(kind: u8) -> Vec<ObjSpec> {
@@ -55,7 +59,7 @@ pub fn catalog() -> Vec<ObjSpec> {
 }
 
 pub fn sess(c: &Cfg) -> SessSpec {
-    let mut s = SessSpec::basic(OtiSpec::new(Scheme::NoCode, c.fdt_e, 64, 0, true));
+    let mut s = SessSpec::basic(if c.sess_raptor { OtiSpec::new(Scheme::Rs28, 512, 64, 0, true) } else { OtiSpec::new(Scheme::NoCode, c.fdt_e, 64, 0, true) });
     s.full_fdt = c.full_fdt;
     s.queues = (0..c.queues).map(|q| (q as u32, c.multiplex)).collect();
     s
@@ -213,7 +217,13 @@ impl Sys for Sys11 {
         if let Some(p) = &self.s.panicked {
             v.push((format!("C11/panic/{}", panic_sig(p)), format!("panic: {}", p)));
         }
-        if let Some(x) = self.mon.violation.clone() {
+        if let Some(mut x) = self.mon.violation.clone() {
+            // known finding (DESIGN section 9): in ObjectsBeingTransferred mode the publication made at the start
+            // of a transfer may fail (session OTI unable to carry the FDT) and the error is dropped: the object
+            // goes out unannounced. Narrow signature, so that anything else under this configuration still alarms.
+            if self.cfg.sess_raptor && !self.cfg.full_fdt && x.0 == "C11/object-packet-before-announcing-fdt" {
+                x.0 = "C11/object-packet-before-announcing-fdt/obt-mode-automatic-publication-failed".into();
+            }
             v.push(x);
         }
         v
@@ -249,6 +259,14 @@ pub fn replay(v: &serde_json::Value) -> Vec<Violation> {
         s.apply(e);
     }
     s.settle();
+    if std::env::var("VERIF_DEBUG").is_ok() {
+        for it in &s.s.log {
+            match it {
+                Item::Pkt(p) => eprintln!("  pkt t={} toi={} sbn={} esi={} b={} fdt={:?} len={}", p.t_ms, p.toi, p.sbn, p.esi, p.b, p.fdt_id, p.payload.len()),
+                other => eprintln!("  {:?}", other),
+            }
+        }
+    }
     s.verdicts().into_iter().map(|(key, what)| Violation { key, what, case: v.clone() }).collect()
 }
 
@@ -261,17 +279,22 @@ pub fn configs() -> Vec<Cfg> {
                     if fdt_e == 1424 && (multiplex == 2 || queues == 1) {
                         continue;
                     }
-                    v.push(Cfg { full_fdt, multiplex, queues, fdt_e, catalog_kind: 0 });
+                    v.push(Cfg { full_fdt, multiplex, queues, fdt_e, catalog_kind: 0, sess_raptor: false });
                     if fdt_e == 512 {
-                        v.push(Cfg { full_fdt, multiplex, queues, fdt_e, catalog_kind: 1 });
-                        v.push(Cfg { full_fdt, multiplex, queues, fdt_e, catalog_kind: 2 });
+                        v.push(Cfg { full_fdt, multiplex, queues, fdt_e, catalog_kind: 1, sess_raptor: false });
+                        v.push(Cfg { full_fdt, multiplex, queues, fdt_e, catalog_kind: 2, sess_raptor: false });
                         if queues == 2 {
-                            v.push(Cfg { full_fdt, multiplex, queues, fdt_e, catalog_kind: 3 });
+                            v.push(Cfg { full_fdt, multiplex, queues, fdt_e, catalog_kind: 3, sess_raptor: false });
                         }
                     }
                 }
             }
         }
+    }
+    // publications that fail (see `sess_raptor`)
+    for full_fdt in [true, false] {
+        v.push(Cfg { full_fdt, multiplex: 1, queues: 1, fdt_e: 512, catalog_kind: 0, sess_raptor: true });
+        v.push(Cfg { full_fdt, multiplex: 2, queues: 2, fdt_e: 512, catalog_kind: 0, sess_raptor: true });
     }
     v
 }
